@@ -21,6 +21,8 @@ enumerated and must be discharged:
       emulate_cycle) or NotImplementedError; the handlers themselves cannot raise them.
   R8  value errors: struct.error needs an out-of-range store value - excluded by the width
       obligations of every sink (C10-W / C16-V re-evaluated over all sinks).
+  R11 implicit None: a function with a value-returning path may not fall off its end (or `return` bare) unless every
+      caller tests the result; the six sites of the pinned tree are a confirmed table.
   R9  enumerated builtins: true division only with a zero-tested divisor; dict / list
       subscripts with computed keys are in a closed, discharged table.
 """
@@ -797,6 +799,120 @@ def check_raises(run, repo):
                           'which would escape emulate_cycle' % sorted(bad))
 
 
+# R11: functions with a value-returning path and a path that falls off the end (result None).  The six sites of the pinned
+# tree were read: each is either total by an argument another rule decides, or its callers test the result.
+IMPLICIT_NONE_OK = {
+    ('armulator/armv6/arm_v6.py', 'translate_address'): 'if/elif over the two MemArch values of the configuration (VMSA, PMSA)',
+    ('armulator/armv6/arm_v6.py', 'coproc_accepted'): 'every arm of the cp_num / CPACR / opc1 tables returns or raises UNDEFINED (C12-C decides the table)',
+    ('armulator/armv6/bits_ops.py', 'lowest_set_bit_ref'): 'x != 0 has a set bit below `length`; reference helper without callers',
+    ('armulator/armv6/memory_controller_hub.py', 'get_memory_by_address'): 'None = unmapped address; both callers test the result (C16-U)',
+    ('armulator/armv6/registers.py', 'r_bank_select'): 'total over the eight legal modes, bad modes return early (C18-R6 banking totality)',
+    ('armulator/armv6/registers.py', 'look_up_rname'): 'total over register numbers 0..15 (C18-R6 register-index ranges)',
+}
+
+
+def check_implicit_none(run, repo, nr):
+    """C18-R11: a function that returns a value on one path and falls off its end (or executes a bare return) on another
+    hands None to its callers; unless every caller tests the result, the next arithmetic on it is a TypeError that escapes
+    the step.  Decoder entry points are R1's subject (None tolerated under a dominating test)."""
+    def terminates(stmts):
+        for s in stmts:
+            if isinstance(s, (ast.Raise, ast.Return)):
+                return True
+            if isinstance(s, ast.Expr) and isinstance(s.value, ast.Call):
+                f = s.value.func
+                if isinstance(f, ast.Attribute) and isinstance(f.value, ast.Name) and f.value.id in ('self', 'processor') \
+                        and ('ArmV6', f.attr) in nr:
+                    return True
+            if isinstance(s, ast.If) and s.orelse and terminates(s.body) and terminates(s.orelse):
+                return True
+            if isinstance(s, ast.Try) and terminates(s.body + s.orelse) and all(terminates(h.body) for h in s.handlers):
+                return True
+            if isinstance(s, ast.Try) and s.finalbody and terminates(s.finalbody):
+                return True
+            if isinstance(s, ast.While) and isinstance(s.test, ast.Constant) and s.test.value is True \
+                    and not any(isinstance(x, ast.Break) for x in ast.walk(s)):
+                return True
+        return False
+
+    def is_none(e):
+        return e is None or (isinstance(e, ast.Constant) and e.value is None)
+    cands = {}
+    nfun = 0
+    funcs = []
+    for mod in repo.modules.values():
+        for fn in [x for x in ast.walk(mod.tree) if isinstance(x, ast.FunctionDef)]:
+            funcs.append((mod, fn))
+            if fn.name in ('from_bitarray', 'decode_instruction'):
+                continue
+            rets = [r for r in ast.walk(fn) if isinstance(r, ast.Return)]
+            valued = [r for r in rets if not is_none(r.value)]
+            if not valued:
+                continue
+            nfun += 1
+            bare = [r for r in rets if is_none(r.value)]
+            if bare or not terminates(fn.body):
+                cands[(mod.relpath, fn.name)] = (fn, 'executes a bare return' if bare else 'can fall off its end')
+    run.floor('value-returning functions', nfun, 350)
+
+    def none_tested(fn, name):
+        for n in ast.walk(fn):
+            t = None
+            if isinstance(n, (ast.If, ast.While, ast.IfExp, ast.Assert)):
+                t = n.test
+            if t is None:
+                continue
+            for c in ast.walk(t):
+                if isinstance(c, ast.Compare) and isinstance(c.left, ast.Name) and c.left.id == name and \
+                        isinstance(c.ops[0], (ast.Is, ast.IsNot, ast.Eq, ast.NotEq)) and is_none(c.comparators[0]):
+                    return True
+            tt = t.operand if isinstance(t, ast.UnaryOp) and isinstance(t.op, ast.Not) else t
+            if isinstance(tt, ast.Name) and tt.id == name:
+                return True
+        return False
+
+    def intolerant_use(name):
+        """first call site of `name` whose result is consumed without a None test"""
+        for mod, fn in funcs:
+            parents = {}
+            for n in ast.walk(fn):
+                for c in ast.iter_child_nodes(n):
+                    parents[c] = n
+            for n in ast.walk(fn):
+                if not isinstance(n, ast.Call):
+                    continue
+                f = n.func
+                if not ((isinstance(f, ast.Attribute) and f.attr == name) or (isinstance(f, ast.Name) and f.id == name)):
+                    continue
+                par = parents.get(n)
+                if isinstance(par, ast.Expr):
+                    continue
+                if isinstance(par, ast.Assign) and len(par.targets) == 1 and isinstance(par.targets[0], ast.Name) \
+                        and none_tested(fn, par.targets[0].id):
+                    continue
+                if isinstance(par, (ast.If, ast.While)) and par.test is n:
+                    continue
+                st = n
+                while st in parents and not isinstance(st, ast.stmt):
+                    st = parents[st]
+                return mod, fn, st
+        return None
+    for key, (fn, why) in sorted(cands.items()):
+        known = key in IMPLICIT_NONE_OK
+        use = None if known else intolerant_use(fn.name)
+        ok = known or use is None
+        run.instance('C18-R11', '%s:%s' % (key[0].split('/')[-1], key[1]), ok=ok,
+                     sample={'function': key[1], 'why': IMPLICIT_NONE_OK.get(key, 'every caller tests the result')})
+        if not ok:
+            mod, cfn, st = use
+            run.violation('C18-R11', key[0], key[1], 'implicit None result',
+                          '%s %s and then returns None, but %s:%s uses the result without a None test (`%s`): the next '
+                          'operation on it is a host TypeError that escapes the step' % (
+                              key[1], why, mod.relpath.split('/')[-1], cfn.name, norm_stmt(st, 90)))
+    missing = [k for k in IMPLICIT_NONE_OK if k not in cands]
+    run.extra['implicit_none_table'] = {'listed': len(IMPLICIT_NONE_OK), 'still_present': len(IMPLICIT_NONE_OK) - len(missing)}
+
+
 def check_builtins(run, repo):
     ndiv = 0
     for mod in repo.modules.values():
@@ -914,6 +1030,7 @@ def main(repo_path, tier, seed, replay=None):
     discharge_unbound(run, repo, findings)
     check_asserts_and_indices(run, repo, eff, fr, fa)
     check_raises(run, repo)
+    check_implicit_none(run, repo, noreturn_functions(repo, eff)[0])
     check_builtins(run, repo)
     check_const_tables(run, repo)
     fa2 = FuncAnalyzer(repo)
